@@ -514,7 +514,8 @@ class Interp:
             elif issubclass(cls, tuple):
                 obj = tuple.__new__(cls, *args)
             else:
-                obj = object.__new__(cls)
+                from .api import _bare_instance
+                obj = _bare_instance(cls)
         if isinstance(obj, cls):
             init = _static_lookup(cls, '__init__')
             if init is not None and isinstance(init[0], types.FunctionType) and _is_repo_function(init[0]):
